@@ -139,7 +139,9 @@ pub fn parts_cfg<S: Sut>(ctx: &mut Ctx, alphabet: Vec<S::Op>, len: usize, cfgs: 
     let pats = patterns(len);
     let alpha = &alphabet;
     let pats_r = &pats;
-    let caps_v = caps.to_vec();
+    // a capacity the structure refuses is visited by the random part only (one refusal is like another)
+    let caps_v: Vec<usize> = caps.iter().copied().filter(|c| matches!(S::build(KIND_COPY, *c, 0), Build::Ready(..))).collect();
+    let caps = &caps_v.clone()[..];
     let cases = (0..cfgs).flat_map(move |cfg| {
         let caps_v = caps_v.clone();
         caps_v.into_iter().flat_map(move |cap| {
@@ -159,9 +161,10 @@ pub fn parts_cfg<S: Sut>(ctx: &mut Ctx, alphabet: Vec<S::Op>, len: usize, cfgs: 
         |c, obs| run::<S>(c, obs),
     );
     let rc = random_caps.to_vec();
-    let strat = (0..random_cfgs, 0..rc.len(), 0u8..3, any::<bool>(), 0u8..5, proptest::collection::vec((strategy, any::<u8>()), 0..200)).prop_map(move |(cfg, ci, mem, start, density, v)| {
+    let strat = (0..random_cfgs, 0..rc.len(), 0u8..8, any::<bool>(), 0u8..5, proptest::collection::vec((strategy, any::<u8>()), 0..200)).prop_map(move |(cfg, ci, mem, start, density, v)| {
+        let mem = crate::mem_kind(mem);
         let (ops, bytes): (Vec<S::Op>, Vec<u8>) = v.into_iter().unzip();
-        Case { cfg, cap: rc[ci], mem, start, reloc: mask(density, &bytes), ops }
+        Case { cfg, cap: rc[ci], mem, start, reloc: mask(mem, density, &bytes), ops }
     });
     ctx.proptest(&format!("{}.random", S::NAME), random_cases, strat, |c, obs| run::<S>(c, obs));
 }
